@@ -151,6 +151,18 @@ constexpr bool used(unsigned f, unsigned s)
         if constexpr (FORM == 0 && TAG == 0 && NLAZY == 0) L::SEV() << a << n << c << b;                                        \
         if constexpr (FORM == 0 && TAG == 0 && NLAZY == 1) L::SEV() << a << n << lazy_t() << c << b;                            \
         if constexpr (FORM == 0 && TAG == 0 && NLAZY == 2) L::SEV() << lazy_t() << a << n << c << lazy_t() << b;                \
+        if constexpr (FORM == 2)                                                                                                \
+        {                                                                                                                       \
+            auto s = TAG ? L::SEV("tg") : L::SEV();                                                                             \
+            if constexpr (NLAZY == 2) s << lazy_t();                                                                            \
+            s << a;                                                                                                             \
+            L::SEV() << "in";       /* a complete statement of the same severity while s is still open */                       \
+            s << n;                                                                                                             \
+            if constexpr (NLAZY == 1) s << lazy_t();                                                                            \
+            s << c;                                                                                                             \
+            if constexpr (NLAZY == 2) s << lazy_t();                                                                            \
+            s << b;                                                                                                             \
+        }                                                                                                                       \
         if constexpr (FORM == 1)                                                                                                \
         {                                                                                                                       \
             auto s = TAG ? L::SEV("tg") : L::SEV();                                                                             \
